@@ -71,4 +71,16 @@ CHECKS = {
         "text": "Pools of six reaction-centre graphs built from consecutive corpus centres (a centre, a relabelled copy, an order-changed and a charge-changed near-miss, two more centres) plus synthetic pools with tied elements/different charges are clustered by GraphCluster.fit and BatchCluster.fit under every list order, pre-grouping attribute none/invariant string, batch sizes {1,2,3,6,None}; incremental lib_check is run over every arrival order with the partition checked after each arrival; classification against given template lists (previous representatives, one dropped, ids shifted, ids with gaps) must use the representative's class or a fresh one.",
         "note": "VERIF_SEED rotates which 20 corpus windows the quick tier uses (thorough: all 98); each selected pool is explored exhaustively.",
     },
+    "C01": {
+        "ready": True, "engine": "E1",
+        "technique": "bounded-exhaustive enumeration of synthetic reactant/product graph pairs and of fully enumerated renumbering / re-rooting / fragment-order / reversal families of every balanced mapped corpus reaction; statement-level oracle + RDKit",
+        "text": "80k (thorough 294k) synthetic (G,H) pairs on a shared node set (9 node labels incl. aromatic/charged, orders {absent,1,2,1.5}, both edge orientations, one-sided nodes) and the 187 balanced, bijectively mapped corpus reactions under every member of the transformation families are encoded; the ITS must hold exactly the union of atoms and bonds with (before, after) labels and differences, its_decompose must return the two graphs, and its_to_rsmi must give a reaction with the same unmapped sides (RDKit canonical SMILES) whose ITS is identical / isomorphic to the original.",
+        "note": "Corpus precondition (balanced, fully and bijectively mapped) is decided by the harness with RDKit. Stereo is not carried by the graph layer.",
+    },
+    "C02": {
+        "ready": True, "engine": "E1",
+        "technique": "bounded-exhaustive enumeration of synthetic ITS graphs (incl. explicit H-H bonds) and corpus ITS graphs x radii 0..3 x derived objects; own changed-bond set and BFS distances as oracle",
+        "text": "For every synthetic ITS of C01, an H-H family, every balanced corpus reaction under its renumbering variants and every stored corpus ITS: the centre's bonds are exactly the changed bonds plus H-H bonds, its atoms their end points with the ITS labels, the centre of the centre is unchanged, renumbered inputs give isomorphic centres, extract_k(k) is exactly the induced subgraph on the atoms within k bonds (own BFS), the chain centre within context(1..3) within ITS holds, and the same holds for copies, relabelled copies and edited copies of an ITS that was queried before.",
+        "note": "Radii 0..3. Derived-object layer guards against state cached on graph objects.",
+    },
 }
